@@ -521,4 +521,317 @@ Qed.
       replace (S i' + 1) with (S (S i')) in * by lia. exact Hi.
   Qed.
 
+
+  (* C03: the boundary rows are the selected end conditions *)
+
+  Definition not_parabola (l r : single Qc) : Prop := (n =? 3) && is_nak l && is_nak r = false.
+
+  Theorem sat_bc_left_first l r k v : not_parabola l r -> sat 0%Qc (srows l r) k ->
+    specialize_single NumQc l = SFirstDeriv v ->
+    piece_d1 (kk k 0) (aq k 0) (bq k 0) (hq 0) 0%Qc = v.
+  Proof.
+    intros _ Hs El. rewrite piece_d1_at_0. destruct (sat_nth _ _ _ Hs) as [_ Hi].
+    specialize (Hi 0 _ eq_refl). unfold s_left in Hi. rewrite El in Hi.
+    cbn [s_low s_mid s_up s_rhs] in Hi. rewrite c0_Qc, c1_Qc in Hi. unfold kk. rewrite <- Hi. ring.
+  Qed.
+
+  Theorem sat_bc_left_second l r k v : not_parabola l r -> sat 0%Qc (srows l r) k ->
+    specialize_single NumQc l = SSecondDeriv v ->
+    piece_d2 (aq k 0) (bq k 0) (hq 0) 0%Qc = v.
+  Proof.
+    intros _ Hs El. destruct (sat_nth _ _ _ Hs) as [_ Hi].
+    specialize (Hi 0 _ eq_refl). unfold s_left in Hi. rewrite El in Hi.
+    cbn [s_low s_mid s_up s_rhs] in Hi.
+    apply (bc_left_second_iff (yq 0) (yq 1) (kk k 0) (kk k 1) (hq 0) v); [apply hq_neq; lia|].
+    unfold kk. rewrite <- Hi. ring.
+  Qed.
+
+  Theorem sat_bc_left_nak l r k : not_parabola l r -> sat 0%Qc (srows l r) k ->
+    is_nak l = true ->
+    m3 (aq k 0) (bq k 0) (hq 0) = m3 (aq k 1) (bq k 1) (hq 1).
+  Proof.
+    intros _ Hs El. destruct (sat_nth _ _ _ Hs) as [_ Hi].
+    pose proof (Hi 0 _ eq_refl) as R0.
+    pose proof (Hi 1 _ (srows_nth_interior l r 1 ltac:(lia) ltac:(lia))) as R1.
+    destruct l; try discriminate El. unfold s_left in R0. cbn [specialize_single] in R0.
+    cbv zeta in R0. cbn [s_low s_mid s_up s_rhs] in R0.
+    unfold s_interior in R1. cbn [s_low s_mid s_up s_rhs Nat.sub Nat.add] in R1.
+    pose proof (hq_sum 0) as Hsum. cbn [Nat.add] in Hsum. rewrite Hsum in R0.
+    unfold aq, bq, kk. cbn [Nat.add].
+    pose proof (hq_pos 0 ltac:(lia)) as P0. pose proof (hq_pos 1 ltac:(lia)) as P1.
+    apply (bc_left_nak (yq 0) (yq 1) (yq 2) (nth 0 k 0%Qc) (nth 1 k 0%Qc) (nth 2 k 0%Qc) (hq 0) (hq 1));
+      try (apply Qc_pos_neq; assumption).
+    - apply Qc_pos_neq. qcord. lra.
+    - cbv zeta. rewrite <- R0. ring.
+    - rewrite <- R1. ring.
+  Qed.
+
+  Theorem sat_bc_right_first l r k v : not_parabola l r -> sat 0%Qc (srows l r) k ->
+    specialize_single NumQc r = SFirstDeriv v ->
+    piece_d1 (kk k (n - 2)) (aq k (n - 2)) (bq k (n - 2)) (hq (n - 2)) (hq (n - 2)) = v.
+  Proof.
+    intros _ Hs Er. unfold aq, bq. rewrite piece_d1_at_h by (apply hq_neq; lia).
+    destruct (sat_nth _ _ _ Hs) as [_ Hi].
+    specialize (Hi (n - 1) _ (srows_nth_last l r)). unfold s_right in Hi. rewrite Er in Hi.
+    cbn [s_low s_mid s_up s_rhs] in Hi. rewrite c0_Qc, c1_Qc in Hi. unfold kk.
+    replace (n - 2 + 1) with (n - 1) by lia. rewrite <- Hi. ring.
+  Qed.
+
+  Theorem sat_bc_right_second l r k v : not_parabola l r -> sat 0%Qc (srows l r) k ->
+    specialize_single NumQc r = SSecondDeriv v ->
+    piece_d2 (aq k (n - 2)) (bq k (n - 2)) (hq (n - 2)) (hq (n - 2)) = v.
+  Proof.
+    intros _ Hs Er. destruct (sat_nth _ _ _ Hs) as [_ Hi].
+    specialize (Hi (n - 1) _ (srows_nth_last l r)). unfold s_right in Hi. rewrite Er in Hi.
+    cbn [s_low s_mid s_up s_rhs] in Hi.
+    destruct (n - 1) as [|m] eqn:Em; [lia|].
+    assert (Hm : n - 2 = m) by lia. rewrite Hm in *.
+    unfold aq, bq, kk. replace (m + 1) with (S m) by lia.
+    apply (bc_right_second_iff (yq m) (yq (S m)) (nth m k 0%Qc) (nth (S m) k 0%Qc) (hq m) v);
+      [apply hq_neq; lia|].
+    rewrite <- Hi. ring.
+  Qed.
+
+  Theorem sat_bc_right_nak l r k : not_parabola l r -> sat 0%Qc (srows l r) k ->
+    is_nak r = true ->
+    m3 (aq k (n - 3)) (bq k (n - 3)) (hq (n - 3)) = m3 (aq k (n - 2)) (bq k (n - 2)) (hq (n - 2)).
+  Proof.
+    intros _ Hs Er. destruct (sat_nth _ _ _ Hs) as [_ Hi].
+    pose proof (Hi (n - 1) _ (srows_nth_last l r)) as R0.
+    pose proof (Hi (n - 2) _ (srows_nth_interior l r (n - 2) ltac:(lia) ltac:(lia))) as R1.
+    destruct r; try discriminate Er. unfold s_right in R0. cbn [specialize_single] in R0.
+    cbv zeta in R0. cbn [s_low s_mid s_up s_rhs] in R0.
+    unfold s_interior in R1. cbn [s_low s_mid s_up s_rhs] in R1.
+    pose proof (hq_sum (n - 3)) as Hsum.
+    replace (n - 3 + 2) with (n - 1) in Hsum by lia. replace (n - 3 + 1) with (n - 2) in Hsum by lia.
+    rewrite Hsum in R0.
+    destruct (n - 1) as [|m1] eqn:Em1; [lia|].
+    destruct (n - 2) as [|m2] eqn:Em2; [lia|].
+    assert (A1 : m1 = S m2) by lia. assert (A2 : m2 = n - 3) by lia. subst m1.
+    rewrite <- A2 in *.
+    unfold aq, bq, kk. replace (m2 + 1) with (S m2) by lia. replace (S m2 + 1) with (S (S m2)) in * by lia.
+    replace (S m2 - 1) with m2 in R1 by lia.
+    pose proof (hq_pos m2 ltac:(lia)) as P0. pose proof (hq_pos (S m2) ltac:(lia)) as P1.
+    apply (bc_right_nak (yq m2) (yq (S m2)) (yq (S (S m2))) (nth m2 k 0%Qc) (nth (S m2) k 0%Qc)
+             (nth (S (S m2)) k 0%Qc) (hq m2) (hq (S m2)));
+      try (apply Qc_pos_neq; assumption).
+    - apply Qc_pos_neq. qcord. lra.
+    - cbv zeta. rewrite <- R0. ring.
+    - rewrite <- R1. ring.
+  Qed.
+
+  Theorem sat_bc_parabola k : n = 3 -> sat 0%Qc srows_parabola k ->
+    m3 (aq k 0) (bq k 0) (hq 0) = 0%Qc /\ m3 (aq k 1) (bq k 1) (hq 1) = 0%Qc.
+  Proof.
+    intros E3 Hs. destruct (sat_nth _ _ _ Hs) as [_ Hi].
+    pose proof (Hi 0 _ eq_refl) as R0. pose proof (Hi 1 _ eq_refl) as R1. pose proof (Hi 2 _ eq_refl) as R2.
+    cbn [s_low s_mid s_up s_rhs] in R0, R1, R2.
+    pose proof (hq_pos 0 ltac:(lia)) as P0. pose proof (hq_pos 1 ltac:(lia)) as P1.
+    unfold aq, bq, kk. cbn [Nat.add].
+    apply (nak3_parabola (yq 0) (yq 1) (yq 2) (nth 0 k 0%Qc) (nth 1 k 0%Qc) (nth 2 k 0%Qc) (hq 0) (hq 1));
+      try (apply Qc_pos_neq; assumption).
+    - apply Qc_pos_neq. qcord. lra.
+    - cbv zeta. rewrite <- R0. ring.
+    - cbv zeta. rewrite <- R1. ring.
+    - cbv zeta. rewrite <- R2. ring.
+  Qed.
+
+
+  (* ---- from the slopes to what spline_interp returns ---- *)
+
+  Lemma nth_map4 {A B C D E} (f : A -> B -> C -> D -> E) l1 l2 l3 l4 da db dc dd de :
+    j < length l1 -> j < length l2 -> j < length l3 -> j < length l4 ->
+    nth j (map4 f l1 l2 l3 l4) de = f (nth j l1 da) (nth j l2 db) (nth j l3 dc) (nth j l4 dd).
+  Proof.
+    generalize j. clear. intros j. revert l2 l3 l4 j.
+    induction l1 as [|a t IH]; intros [|b t2] [|c t3] [|e t4] [|j] H1 H2 H3 H4; cbn in *; try lia; auto.
+    apply IH; lia.
+  Qed.
+  Lemma map4_length {A B C D E} (f : A -> B -> C -> D -> E) l1 l2 l3 l4 W :
+    length l1 = W -> length l2 = W -> length l3 = W -> length l4 = W ->
+    length (map4 f l1 l2 l3 l4) = W.
+  Proof.
+    revert l2 l3 l4 W. induction l1 as [|a t IH]; intros [|b t2] [|c t3] [|e t4] W H1 H2 H3 H4;
+      cbn in *; try lia. destruct W; [lia|]. f_equal. apply IH; lia.
+  Qed.
+
+  (* K : slopes for all lanes, n rows of width L;  kq : lane j *)
+  Variable K : list (list Qc).
+  Hypothesis HKlen : length K = n.
+  Hypothesis HKwidth : Forall (fun v => length v = L) K.
+  Notation kq := (lane_vec 0%Qc j K).
+
+  Lemma K_row_width i : i < n -> length (nth i K []) = L.
+  Proof.
+    intros Hi. rewrite Forall_forall in HKwidth. apply HKwidth. apply nth_In. lia.
+  Qed.
+  Lemma kq_nth i : i < n -> kk kq i = nth j (nth i K []) 0%Qc.
+  Proof.
+    intros Hi. unfold kk, lane_vec.
+    rewrite (nth_indep _ 0%Qc ((fun v => nth j v 0%Qc) [])) by (rewrite map_length; lia).
+    rewrite (map_nth (fun v => nth j v 0%Qc)). reflexivity.
+  Qed.
+
+  Lemma coeff_a_lane i : i + 1 < n ->
+    nth j (coeff_a NumQc xs data i K) 0%Qc = aq kq i /\ length (coeff_a NumQc xs data i K) = L.
+  Proof.
+    intros Hi. unfold coeff_a, aq, ca. split.
+    - rewrite (nth_map3 _ _ _ _ j 0%Qc 0%Qc 0%Qc) by (rewrite ?K_row_width, ?yi_width; lia).
+      rewrite kq_nth by lia. reflexivity.
+    - apply map3_length; rewrite ?K_row_width, ?yi_width; lia.
+  Qed.
+  Lemma coeff_b_lane i : i + 1 < n ->
+    nth j (coeff_b NumQc xs data i K) 0%Qc = bq kq i /\ length (coeff_b NumQc xs data i K) = L.
+  Proof.
+    intros Hi. unfold coeff_b, bq, cb. split.
+    - rewrite (nth_map3 _ _ _ _ j 0%Qc 0%Qc 0%Qc) by (rewrite ?K_row_width, ?yi_width; lia).
+      rewrite kq_nth by lia. reflexivity.
+    - apply map3_length; rewrite ?K_row_width, ?yi_width; lia.
+  Qed.
+
+  Definition sp_of (e : sext) : spline_strat :=
+    mkSpline (map (fun i => coeff_a NumQc xs data i K) (seq 0 (n - 1)))
+             (map (fun i => coeff_b NumQc xs data i K) (seq 0 (n - 1))) e.
+
+  Lemma sp_a_nth e i : i + 1 < n -> nth i (sp_a (sp_of e)) [] = coeff_a NumQc xs data i K.
+  Proof.
+    intros Hi. cbn [sp_of sp_a].
+    rewrite (nth_indep _ [] ((fun i => coeff_a NumQc xs data i K) 0)) by (rewrite map_length, seq_length; lia).
+    rewrite (map_nth (fun i => coeff_a NumQc xs data i K)). rewrite seq_nth by lia. reflexivity.
+  Qed.
+  Lemma sp_b_nth e i : i + 1 < n -> nth i (sp_b (sp_of e)) [] = coeff_b NumQc xs data i K.
+  Proof.
+    intros Hi. cbn [sp_of sp_b].
+    rewrite (nth_indep _ [] ((fun i => coeff_b NumQc xs data i K) 0)) by (rewrite map_length, seq_length; lia).
+    rewrite (map_nth (fun i => coeff_b NumQc xs data i K)). rewrite seq_nth by lia. reflexivity.
+  Qed.
+
+  Hypothesis H64 : (Z.of_nat n <= two64)%Z.
+
+  (* evaluation once the bracket is known *)
+  Lemma spline_eval_at e x i :
+    lower_index NumQc xs x = Ok i -> i + 1 < n ->
+    (sp_ext (sp_of e) = ExtNo -> in_closed_range NumQc 0%Qc xs x = true) ->
+    sp_ext (sp_of e) <> ExtPeriodic ->
+    exists v, spline_interp NumQc (sp_of e) xs data x = Ok v /\ length v = L /\
+      nth j v 0%Qc = piece (yq i) (kk kq i) (aq kq i) (bq kq i) (hq i) (x - nth i xs 0)%Qc.
+  Proof.
+    intros Hi Hlt Hr Hp. unfold spline_interp.
+    rewrite (is_in_range_spec NumQc 0%Qc) by lia. cbn [bind].
+    assert (Hx' : (match sp_ext (sp_of e), in_closed_range NumQc 0%Qc xs x with
+                   | ExtPeriodic, false =>
+                       x0 <- idx xs 0 ;; n1 <- usub (length xs) 1 ;; xn <- idx xs n1 ;;
+                       Ok (add NumQc (rem_euclid NumQc (sub NumQc x x0) (sub NumQc xn x0)) x0)
+                   | _, _ => Ok x end) = Ok x).
+    { destruct (sp_ext (sp_of e)); try reflexivity. congruence. }
+    destruct (sp_ext (sp_of e)) eqn:Ee; destruct (in_closed_range NumQc 0%Qc xs x) eqn:Er;
+      try (specialize (Hr eq_refl); discriminate); try congruence.
+    all: cbn [bind]; rewrite Hi; cbn [bind].
+    all: rewrite (idx_nth data i []) by lia; rewrite (idx_nth xs i 0%Qc) by lia;
+         rewrite (idx_nth data (i + 1) []) by lia; rewrite (idx_nth xs (i + 1) 0%Qc) by lia; cbn [bind].
+    all: rewrite (idx_nth (sp_a (sp_of e)) i []) by (cbn [sp_of sp_a]; rewrite map_length, seq_length; lia);
+         rewrite (idx_nth (sp_b (sp_of e)) i []) by (cbn [sp_of sp_b]; rewrite map_length, seq_length; lia);
+         cbn [bind].
+    all: rewrite sp_a_nth, sp_b_nth by lia.
+    all: eexists; split; [reflexivity|].
+    all: destruct (coeff_a_lane i Hlt) as [Ea La]; destruct (coeff_b_lane i Hlt) as [Eb Lb].
+    all: split; [apply map4_length; auto; apply Hwidth; lia|].
+    all: rewrite (nth_map4 _ _ _ _ _ 0%Qc 0%Qc 0%Qc 0%Qc 0%Qc) by (rewrite ?La, ?Lb, ?Hwidth; lia).
+    all: rewrite Ea, Eb.
+    all: change (nth j (nth i data []) 0%Qc) with (yq i);
+         change (nth j (nth (i + 1) data []) 0%Qc) with (yq (i + 1)).
+    all: change (sub NumQc (nth (i + 1) xs 0%Qc) (nth i xs 0%Qc)) with (hq i).
+    all: unfold aq, bq; apply (eval_is_piece (yq i) (yq (i + 1)) (kk kq i) (kk kq (i + 1)) (hq i));
+         apply hq_neq; lia.
+  Qed.
+
 End Lane.
+
+(* ------------------------------------------------------------------ *)
+(* Top level: what spline_build / spline_interp return, lane by lane    *)
+
+Section Main.
+  Variable xs : list Qc.
+  Variable data : list (list Qc).
+  Variable L : nat.
+  Hypothesis Hwidth : forall i, i < length data -> length (nth i data []) = L.
+  Hypothesis HS : StrictIncQc xs.
+  Hypothesis Hlen : length xs = length data.
+  Hypothesis Hn : 3 <= length data.
+  Hypothesis H64 : (Z.of_nat (length data) <= two64)%Z.
+  Hypothesis HL : 0 < L.
+  Notation n := (length data).
+
+  Definition sys_rows (j : nat) (l r : single Qc) : list qrow :=
+    if (n =? 3) && is_nak l && is_nak r then srows_parabola xs data j else srows xs data j l r.
+
+  (* shape of the slopes *)
+  Lemma solve_mixed_shape l r K :
+    solve_for_k NumQc xs data (IMixed l r) = Ok K ->
+    length K = n /\ Forall (fun v => length v = L) K.
+  Proof.
+    unfold solve_for_k.
+    destruct (n <? 3) eqn:E3; [apply Nat.ltb_lt in E3; lia|].
+    rewrite Hlen, Nat.eqb_refl. cbn [negb]. intros HK. injection HK as <-.
+    unfold mixed_rows.
+    destruct ((n =? 3) && is_nak l && is_nak r) eqn:Epar.
+    - apply andb_prop in Epar as [Epar _]. apply andb_prop in Epar as [En _]. apply Nat.eqb_eq in En.
+      destruct (lane_parabola xs data L 0 HL Hwidth Hlen Hn) as [_ W].
+      destruct (thomas_shape NumQc 0%Qc L _ HL W) as [A B]. split; [|exact A].
+      rewrite B. cbn. lia.
+    - destruct (lane_srows xs data L 0 HL Hwidth Hlen Hn l r) as [_ W].
+      destruct (thomas_shape NumQc 0%Qc L _ HL W) as [A B]. split; [|exact A].
+      rewrite B. cbn [length]. rewrite app_length. unfold interior_rows.
+      rewrite map_length, seq_length. cbn. lia.
+  Qed.
+
+  Definition whole_lr (b : bc Qc) : option (single Qc * single Qc) :=
+    match b with
+    | BNotAKnot => Some (SNotAKnot, SNotAKnot)
+    | BNatural => Some (SNatural, SNatural)
+    | BClamped => Some (SClamped, SClamped)
+    | _ => None
+    end.
+
+  Lemma spline_build_whole b l r ext trail sp :
+    whole_lr b = Some (l, r) -> spline_build NumQc b ext xs data trail = Ok sp ->
+    exists K, solve_for_k NumQc xs data (IMixed l r) = Ok K /\
+              sp = sp_of xs data K (if negb ext then ExtNo else ExtYes).
+  Proof.
+    intros Hb. unfold spline_build.
+    destruct b; cbn in Hb; try discriminate; injection Hb as <- <-;
+      (destruct (solve_for_k NumQc xs data _) as [K| |k| |] eqn:EK; cbn [bind]; try discriminate;
+       intros E; injection E as <-; exists K; split; [reflexivity|];
+       unfold sp_of; destruct ext; reflexivity).
+  Qed.
+
+  (* Main theorem (whole-data-set NotAKnot / Natural / Clamped): for every lane j the slopes
+     are the unique solution of the system and every answered query is the cubic piece of
+     ONE bracketing interval evaluated at the query. *)
+  Theorem spline_whole_correct b l r ext trail sp j :
+    whole_lr b = Some (l, r) -> j < L ->
+    spline_build NumQc b ext xs data trail = Ok sp ->
+    exists kq : list Qc,
+      (forall k, sat 0%Qc (sys_rows j l r) k <-> k = kq) /\
+      forall x, (ext = false -> in_closed_range NumQc 0%Qc xs x = true) ->
+        exists i v, lower_index NumQc xs x = Ok i /\ i + 1 < n /\
+          spline_interp NumQc sp xs data x = Ok v /\ length v = L /\
+          nth j v 0%Qc =
+            piece (yq data j i) (kk kq i) (aq xs data j kq i) (bq xs data j kq i) (hq xs i)
+                  (x - nth i xs 0)%Qc.
+  Proof.
+    intros Hb Hj Hsp.
+    destruct (spline_build_whole b l r ext trail sp Hb Hsp) as (K & HK & ->).
+    destruct (solve_mixed_shape l r K HK) as [KL KW].
+    destruct (solve_mixed_lane xs data L j Hj Hwidth HS Hlen Hn l r K HK) as [_ Hiff].
+    exists (lane_vec 0%Qc j K). split; [exact Hiff|].
+    intros x Hx.
+    destruct (lower_index_Qc xs x HS ltac:(lia) ltac:(rewrite Hlen; exact H64)) as (i & Hi & Hb2 & _).
+    destruct (spline_eval_at xs data L j Hj Hwidth HS Hlen Hn K KL KW
+                (if negb ext then ExtNo else ExtYes) x i Hi ltac:(lia)) as (v & Ev & Lv & Nv).
+    - cbn [sp_of sp_ext]. destruct ext; cbn [negb]; [discriminate|]. intros _. apply Hx. reflexivity.
+    - cbn [sp_of sp_ext]. destruct ext; discriminate.
+    - exists i, v. repeat split; auto. lia.
+  Qed.
+
+End Main.
